@@ -817,8 +817,8 @@ class Interp:
                     try:
                         r = self.call_body(p, args, depth + 1)
                         rd = self.deref_val(r) if r is not None and r[0] != "ref" else r
-                        if self.known(r) or (r is not None and r[0] == "adt" and r[1] != "?"):
-                            return r
+                        if self.known(r) or (r is not None and r[0] == "adt" and r[1] != "?") or (r is not None and r[0] == "closure"):
+                            return r        # (a closure: an async fn called with opaque arguments returns its future)
                     except Unsupported as ex_:
                         if os.environ.get("FEVAL_DEBUG"):
                             print("feval: body of %s not evaluable on opaque arguments: %s" % (p, ex_), file=sys.stderr)
